@@ -53,8 +53,9 @@ VARIABLES sc,        \* the scenario
           queue,     \* refresh driver: eager nodes still to get
           status,    \* "refresh" | "done" | "failed"
           lookups,   \* user lookups issued so far
-          failedEver \* some creation attempt failed in this run
-vars == <<sc, L1, L2, L3, inCr, stack, fS, fL, deps, earlyRuns, seen, phase, cnt, queue, status, lookups, failedEver>>
+          failedEver, \* some creation attempt failed in this run
+          pinit      \* Init() calls of the user post-processors (sc.procs), which are components themselves
+vars == <<sc, L1, L2, L3, inCr, stack, fS, fL, deps, earlyRuns, seen, phase, cnt, queue, status, lookups, failedEver, pinit>>
 
 EarlyVer(s, n) ==
   IF s.wrap[n] \in {"early", "bothDiff", "bothSame", "spring"}
@@ -84,6 +85,7 @@ InitWith(s) ==
   /\ earlyRuns = [n \in Node |-> 0] /\ seen = [n \in Node |-> {}]
   /\ phase = [n \in Node |-> "new"] /\ cnt = [n \in Node |-> ZeroCnt]
   /\ queue = SortedEager(s) /\ status = "refresh" /\ lookups = 0 /\ failedEver = FALSE
+  /\ pinit = [p \in 1..Len(s.procs) |-> 0]
 ResetTo(s) ==
   /\ sc' = s
   /\ L1' = [n \in Node |-> NoV] /\ L2' = [n \in Node |-> NoV] /\ L3' = {} /\ inCr' = {}
@@ -93,6 +95,7 @@ ResetTo(s) ==
   /\ earlyRuns' = [n \in Node |-> 0] /\ seen' = [n \in Node |-> {}]
   /\ phase' = [n \in Node |-> "new"] /\ cnt' = [n \in Node |-> ZeroCnt]
   /\ queue' = SortedEager(s) /\ status' = "refresh" /\ lookups' = 0 /\ failedEver' = FALSE
+  /\ pinit' = [p \in 1..Len(s.procs) |-> 0]
 
 Init == \E s \in Scenarios : InitWith(s)
 
@@ -140,7 +143,7 @@ Deliver(f, t, v, wasSlice, deps0) ==
 CanAskSingle(t) == stack # <<>> /\ Top.pc = "pop" /\ ~Top.open /\ t \in Top.todoS
 CanAskSlice(t)  == stack # <<>> /\ Top.pc = "pop" /\ t \in Top.todoL
 CanAskTop(t)    == /\ stack = <<>>
-                   /\ \/ (status = "refresh" /\ queue # <<>> /\ Head(queue) = t)
+                   /\ \/ (status = "refresh" /\ queue # <<>> /\ Head(queue) = t /\ \A p \in 1..Len(sc.procs) : sc.procs[p] \/ pinit[p] = 1)
                       \/ (status \in {"done", "failed"} /\ lookups < MaxLookups)
 
 \* result of registry.GetSingleton(t, TRUE) in the current state
@@ -192,7 +195,7 @@ Get(t, kind) ==
                                      [f0 EXCEPT !.exp = [n |-> t, k |-> IF asSlice THEN "L" ELSE "S", o |-> "wait"]]],
                                   Frame(t))
                /\ UNCHANGED <<fS, fL, deps>>
-  /\ UNCHANGED <<sc, L1, inCr, phase, cnt>>
+  /\ UNCHANGED <<sc, pinit, L1, inCr, phase, cnt>>
 
 \* EVENT createBegin(n): GetSingletonOrCreateByFactory marked the name and entered the factory
 CreateBegin ==
@@ -201,7 +204,7 @@ CreateBegin ==
   /\ earlyRuns' = [earlyRuns EXCEPT ![Top.n] = 0]
   /\ seen' = [seen EXCEPT ![Top.n] = {}]
   /\ stack' = [stack EXCEPT ![Len(stack)] = [Top EXCEPT !.pc = "factory"]]
-  /\ UNCHANGED <<sc, L1, L2, L3, fS, fL, deps, phase, cnt, queue, status, lookups, failedEver>>
+  /\ UNCHANGED <<sc, pinit, L1, L2, L3, fS, fL, deps, phase, cnt, queue, status, lookups, failedEver>>
 
 \* EVENT addFactory(n): doCreateComponent exposes the early-reference factory.
 \* With FixF3 the further-matching processor (Order 4) rejects a required self-only point before the
@@ -212,7 +215,7 @@ AddFactory ==
   /\ L3' = L3 \cup {Top.n}
   /\ phase' = [phase EXCEPT ![Top.n] = "populating"]
   /\ stack' = [stack EXCEPT ![Len(stack)] = [Top EXCEPT !.pc = IF FixF3 /\ SelfOnly(sc, Top.n) THEN "fail" ELSE "resolve"]]
-  /\ UNCHANGED <<sc, L1, L2, inCr, fS, fL, deps, earlyRuns, seen, cnt, queue, status, lookups, failedEver>>
+  /\ UNCHANGED <<sc, pinit, L1, L2, inCr, fS, fL, deps, earlyRuns, seen, cnt, queue, status, lookups, failedEver>>
 
 Bump(n, c) == [cnt EXCEPT ![n][c] = @ + 1]
 
@@ -225,7 +228,7 @@ Resolve ==
                  ELSE [Top EXCEPT !.pc = "pop", !.todoS = IF FixF3 THEN sc.single[n] \ {n} ELSE sc.single[n],
                                               !.todoL = IF FixF3 THEN sc.slice[n] \ {n} ELSE sc.slice[n]]]
      /\ cnt' = Bump(n, "resolve")
-  /\ UNCHANGED <<sc, L1, L2, L3, inCr, fS, fL, deps, earlyRuns, seen, phase, queue, status, lookups, failedEver>>
+  /\ UNCHANGED <<sc, pinit, L1, L2, L3, inCr, fS, fL, deps, earlyRuns, seen, phase, queue, status, lookups, failedEver>>
 
 PopulateDone(f) == f.pc = "pop" /\ f.todoS = {} /\ f.todoL = {} /\ ~f.open
 
@@ -240,7 +243,7 @@ Callback(pcFrom, failTag, pcTo, ph) ==
              /\ UNCHANGED phase
         ELSE /\ stack' = [stack EXCEPT ![Len(stack)] = [Top EXCEPT !.pc = pcTo]]
              /\ phase' = [phase EXCEPT ![n] = ph]
-  /\ UNCHANGED <<sc, L1, L2, L3, inCr, fS, fL, deps, earlyRuns, seen, queue, status, lookups, failedEver>>
+  /\ UNCHANGED <<sc, pinit, L1, L2, L3, inCr, fS, fL, deps, earlyRuns, seen, queue, status, lookups, failedEver>>
 
 BInit  == Callback("pop", "before", "aps", "binit")
 APS    == Callback("aps", "aps", "init", "aps")
@@ -260,7 +263,7 @@ AInit ==
                                        ELSE [n |-> n, k |-> "afterP", o |-> AfterObj(n)]]]
              \* a substituted object gets a fresh proxy Meta without dependents
              /\ deps' = IF AfterObj(n) # "raw" THEN [deps EXCEPT ![n]["afterP"] = {}] ELSE deps
-  /\ UNCHANGED <<sc, L1, L2, L3, inCr, fS, fL, earlyRuns, seen, queue, status, lookups, failedEver>>
+  /\ UNCHANGED <<sc, pinit, L1, L2, L3, inCr, fS, fL, earlyRuns, seen, queue, status, lookups, failedEver>>
 
 \* EVENT getNoEarly(n): doCreateComponent compares the exposed object with the early reference
 Check ==
@@ -273,7 +276,7 @@ Check ==
                     IF er # NoV /\ ex # Raw(n) /\ actual # {}
                     THEN [Top EXCEPT !.pc = "fail"]
                     ELSE [Top EXCEPT !.pc = "end", !.exp = final]]
-  /\ UNCHANGED <<sc, L1, L2, L3, inCr, fS, fL, deps, earlyRuns, seen, phase, cnt, queue, status, lookups, failedEver>>
+  /\ UNCHANGED <<sc, pinit, L1, L2, L3, inCr, fS, fL, deps, earlyRuns, seen, phase, cnt, queue, status, lookups, failedEver>>
 
 \* EVENT createEnd(n, ok|err): GetSingletonOrCreateByFactory returns
 CreateEnd ==
@@ -304,16 +307,27 @@ CreateEnd ==
              ELSE
                /\ stack' = [Pop EXCEPT ![Len(stack) - 1] = [p EXCEPT !.pc = "fail", !.exp = NoV]]
                /\ UNCHANGED <<fS, fL, deps>>
-  /\ UNCHANGED <<sc, earlyRuns, seen, cnt, queue, lookups>>
+  /\ UNCHANGED <<sc, pinit, earlyRuns, seen, cnt, queue, lookups>>
+
+\* EVENT procInit(p): PrepareComponents creates every NON-lazy user post-processor through the factory (its
+\* lifecycle runs once, before any ordinary component is refreshed); a LazyInit post-processor that no eager
+\* component needs is registered but never initialised.
+NothingCreatedYet == stack = <<>> /\ status = "refresh" /\ queue = SortedEager(sc) /\ \A n \in Node : phase[n] = "new"
+ProcInit(p) ==
+  /\ p \in 1..Len(sc.procs) /\ ~sc.procs[p] /\ pinit[p] = 0 /\ NothingCreatedYet
+  /\ pinit' = [pinit EXCEPT ![p] = 1]
+  /\ UNCHANGED <<sc, L1, L2, L3, inCr, stack, fS, fL, deps, earlyRuns, seen, phase, cnt, queue, status, lookups, failedEver>>
+ProcsReady == \A p \in 1..Len(sc.procs) : sc.procs[p] \/ pinit[p] = 1
 
 \* EVENT runReturn(ok): refresh finished with nothing (left) to create
 RefreshDone ==
-  /\ status = "refresh" /\ stack = <<>> /\ queue = <<>>
+  /\ status = "refresh" /\ stack = <<>> /\ queue = <<>> /\ (\A p \in 1..Len(sc.procs) : sc.procs[p] \/ pinit[p] = 1)
   /\ status' = "done"
-  /\ UNCHANGED <<sc, L1, L2, L3, inCr, stack, fS, fL, deps, earlyRuns, seen, phase, cnt, queue, lookups, failedEver>>
+  /\ UNCHANGED <<sc, pinit, L1, L2, L3, inCr, stack, fS, fL, deps, earlyRuns, seen, phase, cnt, queue, lookups, failedEver>>
 
 Next == (\E t \in Node, kind \in {"S", "L", "top"} : Get(t, kind)) \/ CreateBegin \/ AddFactory \/ Resolve
         \/ BInit \/ APS \/ InitCb \/ AInit \/ Check \/ CreateEnd \/ RefreshDone
+        \/ \E p \in 1..2 : ProcInit(p)
 
 Spec == Init /\ [][Next]_vars
 LiveSpec == Spec /\ WF_vars(Next)
@@ -371,6 +385,10 @@ C05_Once ==          \* a retry after a failed attempt necessarily repeats callb
      /\ phase[n] = "published" => \A c \in Callbacks : cnt[n][c] = 1
      /\ phase[n] = "new" => \A c \in Callbacks : cnt[n][c] = 0
 C05_InitOnce == \A n \in Node : ~failedEver => cnt[n]["init"] <= 1
+
+\* a LazyInit post-processor that nothing needs is never initialised; an eager one exactly once, before the refresh
+C05_LazyProcs == \A p \in 1..Len(sc.procs) : (sc.procs[p] => pinit[p] = 0) /\ pinit[p] <= 1
+C05_ProcsBeforeRefresh == (\E n \in Node : phase[n] # "new") => \A p \in 1..Len(sc.procs) : sc.procs[p] \/ pinit[p] = 1
 
 \* graph helpers (scenario only)
 Edges(s) == {<<h, t>> \in Node \X Node : t # h /\ (t \in s.single[h] \/ t \in s.slice[h])}
